@@ -711,6 +711,9 @@ class GoExec:
     def ev_CompositeLit(self, st, e):
         tid = e['t']
         k = self.tt.kind(tid)
+        if k == 'ptr':           # elided &T{...} inside a composite literal of pointers
+            inner = dict(e); inner['t'] = self.tt[tid]['e']
+            return self.alloc(st, self.ev_CompositeLit(st, inner), self.tt[tid]['e'])
         if k == 'struct':
             v = self.lay.zero(tid)
             fs = self.tt.fields(tid)
